@@ -205,7 +205,7 @@ func TestVerifC16Slots(t *testing.T) {
 		t.Fatal(err)
 	}
 	defer out.Close()
-	var evals, nontrivial, hangs int64
+	var evals, nontrivial, hangs, skipped int64
 	burst := verifutil.Env("VERIF_BURST", "") == "1"
 	workers := runtime.NumCPU() * 2
 	if burst {
@@ -215,6 +215,12 @@ func TestVerifC16Slots(t *testing.T) {
 		var steps []c16Step
 		if err := json.Unmarshal(lines[i], &steps); err != nil {
 			out.Put(map[string]any{"harness_error": err.Error(), "line": i})
+			return
+		}
+		if atomic.LoadInt64(&hangs) >= 6 {
+			// every hang costs several watchdog periods; six reproduced ones are reported, the
+			// rest of the scenarios is skipped (counted) so that the check ends in bounded time
+			atomic.AddInt64(&skipped, 1)
 			return
 		}
 		atomic.AddInt64(&evals, 1)
@@ -235,13 +241,17 @@ func TestVerifC16Slots(t *testing.T) {
 			return
 		}
 		repro := 1
-		for k := 0; k < 4; k++ {
+		reruns := 4
+		if hang {
+			reruns = 2
+		}
+		for k := 0; k < reruns; k++ {
 			m2, _, _ := c16RunSlots(1000000*(k+1)+i, steps, burst)
 			if m2 != "" {
 				repro++
 			}
 		}
-		if hang {
+		if hang && repro >= 3 {
 			atomic.AddInt64(&hangs, 1)
 		}
 		if burst && repro >= 2 {
@@ -249,7 +259,7 @@ func TestVerifC16Slots(t *testing.T) {
 		}
 		out.Put(map[string]any{"kind": "slots", "burst": burst, "scn": steps, "what": msg, "observed": obs, "repro": repro, "hang": hang})
 	})
-	out.Put(map[string]any{"summary": true, "scenarios": len(lines), "evaluations": evals, "nontrivial": nontrivial, "hangs": hangs})
+	out.Put(map[string]any{"summary": true, "scenarios": len(lines), "evaluations": evals, "nontrivial": nontrivial, "hangs": hangs, "skipped_after_hangs": skipped})
 }
 
 /* ---------------------------------------------------------------- builder */
